@@ -399,19 +399,27 @@ class MultiDatasetSignalGenerator(
         # Correct the n_events_arr array based on the dataset weights if
         # necessary.
         sum_n_events_arr = np.sum(n_events_arr)
-        if sum_n_events_arr != mean:
+        if sum_n_events_arr < mean:
             (ds_idxs, counts) = np.unique(
                 rss.random.choice(
                     np.arange(len(n_events_arr)),
-                    size=np.abs(mean - sum_n_events_arr),
+                    size=mean - sum_n_events_arr,
                     p=ds_weights,
                 ),
                 return_counts=True
             )
-            if sum_n_events_arr < mean:
-                n_events_arr[ds_idxs] += counts
-            elif sum_n_events_arr > mean:
-                n_events_arr[ds_idxs] -= counts
+            n_events_arr[ds_idxs] += counts
+        elif sum_n_events_arr > mean:
+            # Remove the surplus events one by one and only from datasets that
+            # still have events, so that no dataset ends up with a negative
+            # number of events.
+            for _ in range(sum_n_events_arr - mean):
+                p = np.where(n_events_arr > 0, ds_weights, 0.)
+                ds_idx = rss.random.choice(
+                    np.arange(len(n_events_arr)),
+                    p=p/np.sum(p),
+                )
+                n_events_arr[ds_idx] -= 1
 
         n_signal = 0
         signal_events_dict = {}
